@@ -613,7 +613,12 @@ func (x *Exec) applyContract(fr *Frame, st *State, in ssa.Instruction, con *Cont
 				continue
 			}
 			f := env.evalBool(p.C.Expr).formula()
-			x.proveF(fr, st, fmt.Sprintf("%s.pre[%d]", lbl, i), "precondition", f, in)
+			if fr.depth == 0 && fr.con != nil && fr.con.Opts["trust-pre"] != "" && "call:"+fr.con.Opts["trust-pre"] == lbl {
+				// opt trust-pre=Callee#k: the precondition of this one call is an assumption of the caller's contract (listed)
+				x.note("precondition " + strconv.Itoa(i) + " of " + key + " at " + lbl + " in " + x.key + " is assumed (opt trust-pre)")
+			} else {
+				x.proveF(fr, st, fmt.Sprintf("%s.pre[%d]", lbl, i), "precondition", f, in)
+			}
 			x.assumeF(st, f)
 			i++
 		}
@@ -755,23 +760,11 @@ func (eng *Engine) searchRebind(key string, con *Contract, bound int, r *FuncRes
 		return nil, nil
 	}
 	name := r.rebindable
-	// only names that no precondition, postcondition, frame or assert clause uses: those clauses carry meaning
-	if con.freeIdents(true)[name] {
+	// only names that no precondition, postcondition or frame clause uses: those clauses carry meaning in terms of the signature.
+	// (`result`/`resultN` in a postcondition denote the function's results, never a local of that name.)  In-body assert clauses
+	// speak about locals by nature: a renamed local is re-bound there too, and the proof of every obligation decides.
+	if !strings.HasPrefix(name, "result") && con.freeIdents(true)[name] {
 		return nil, nil
-	}
-	for _, cs := range con.AssertAt {
-		for _, cl := range cs {
-			found := false
-			ast.Inspect(cl.Expr, func(n ast.Node) bool {
-				if id, ok := n.(*ast.Ident); ok && id.Name == name {
-					found = true
-				}
-				return !found
-			})
-			if found {
-				return nil, nil
-			}
-		}
 	}
 	type cand struct {
 		r  *FuncResult
